@@ -9,7 +9,9 @@ from . import c02
 
 ID = 'C03'
 LEVEL = 'model_checking'
-RULE = ('[sibling family: every Boolean connective over one operand without future (atom, not, prev, s_prev, rise, fall, once, historically, since) and one '
+RULE = ('[configuration-order family: for 9 formulas with next / bounded future beside a past operand, the monitor is built with set_sampling_period() before parse(), '
+        'between parse() and pastify(), after pastify(), and changed after parse()/pastify() - 5 orders x 2 final configurations (s / 1 s, ms / 1 ms), same invariant] ' +
+        '[sibling family: every Boolean connective over one operand without future (atom, not, prev, s_prev, rise, fall, once, historically, since) and one '
         'bounded-future operand (next, s_next, eventually, always, until), both orders - the shape in which pastify() delays a past operand] ' +
         'explicit-state BFS of the real pastified online monitor per bounded-future formula (<=2 operators over past, future, '
         'Boolean operators, 3-chains, unit-spelled bounds, unary minus/ln/log atoms); one transition = one real update(); '
@@ -123,6 +125,8 @@ def shards(tier):
     out += [{'formulas': [F.to_json(f) for f in ls[i:i + 2]], 'long': True} for i in range(0, len(ls), 2)]
     lu = long_unit_cases(tier)
     out += [{'long_units': [(F.to_json(f), st) for f, st in lu[i:i + 2]]} for i in range(0, len(lu), 2)]
+    for i in range(len(order_formulas())):
+        out.append({'orders': i})
     sib = F.sibling_formulas()
     sib = sib[::3] if tier == 'quick' else sib
     out += [{'formulas': [F.to_json(f) for f in sib[i:i + 10]], 'sibling': True} for i in range(0, len(sib), 10)]
@@ -188,6 +192,35 @@ def modular_cases(tier):
     return out
 
 
+ORDERS = {
+    # final configuration (unit U, period P); the statement fixes no order for the configuration calls before the first update()
+    'standard': lambda U, P, P2: [('unit', U), ('period', P), 'parse', 'pastify'],
+    'period after parse': lambda U, P, P2: [('unit', U), 'parse', ('period', P), 'pastify'],
+    'period after pastify': lambda U, P, P2: [('unit', U), 'parse', 'pastify', ('period', P)],
+    'period changed after pastify': lambda U, P, P2: [('unit', U), ('period', P2), 'parse', 'pastify', ('period', P)],
+    'period changed after parse': lambda U, P, P2: [('unit', U), ('period', P2), 'parse', ('period', P), 'pastify'],
+}
+ORDER_CFGS = {'s': ('s', (1, 's'), (2, 's')), 'ms': ('ms', (1, 'ms'), (1, 's'))}
+
+
+class OrderedModel(c02.DtOnlineModel):
+    """the pastified monitor built with the configuration calls in a given order"""
+
+    def __init__(self, f, values, order, cfg):
+        c02.DtOnlineModel.__init__(self, f, values, pastify=True, delay=int(refsem.horizon(f)), offline=False)
+        self.order, self.cfg = order, cfg
+
+    def fresh(self):
+        return impl.build_steps('dt_on', self.text, self.vs, ORDERS[self.order](*ORDER_CFGS[self.cfg]))
+
+
+def order_formulas():
+    px, py = F.PX, F.PY
+    return [('and', ('next', px), py), ('or', py, ('next', px)), ('next', ('next', px)), ('implies', ('s_next', px), ('once', (0, 1), py)),
+            ('and', ('eventually', (0, 2), px), py), ('until', (1, 2), px, py), ('and', ('next', px), ('eventually', (1, 2), py)),
+            ('iff', ('prev', py), ('next', px)), ('always', (0, 1), ('or', px, ('next', py)))]
+
+
 def model_for(f, values, style=None):
     h = refsem.horizon(f)
     text = 'out = ' + (F.pr(f, unit_bound(style)) if style else F.pr(f))
@@ -211,6 +244,14 @@ def run_shard(shard, tier, res):
         st, m = c02.explore_formula(res, mod, f, p, model=m)
         res.sample({'spec': m.text, 'horizon': m.delay, 'states': st.states, 'transitions': st.transitions,
                     'fixpoint': st.fixpoint, 'max_depth': st.maxdepth}, 1)
+    if 'orders' in shard:
+        f = order_formulas()[shard['orders']]
+        for order in ORDERS:
+            for cfg in ORDER_CFGS:
+                m = OrderedModel(f, p['values'], order, cfg)
+                st, m = c02.explore_formula(res, mod, f, dict(p, maxdepth=6, max_transitions=300 if tier == 'quick' else 3000), model=m, extra={'order': order, 'cfg': cfg})
+                res.flags['configuration_orders'] += 1
+        res.sample({'spec': m.text, 'orders': list(ORDERS), 'configurations': list(ORDER_CFGS)}, 1)
     for fj, style in shard.get('long_units', []):
         f = F.from_json(fj)
         c02.run_long(res, mod, f, tier, pastify=True, delay=int(refsem.horizon(f)), text='out = ' + F.pr(f, unit_bound(style)))
@@ -230,6 +271,16 @@ def run_shard(shard, tier, res):
 
 
 def replay(case):
+    if case.get('order'):
+        m = OrderedModel(F.from_json(case['formula']), (F.V3, F.V2), case['order'], case['cfg'])
+        obj = m.fresh()
+        hist = tuple(tuple(e) for e in case['history'])
+        msgs = []
+        for i, e in enumerate(hist):
+            msg = m.check(hist[:i + 1], m.apply(obj, hist[:i], e), obj)
+            if msg and msg is not explore.PRUNE:
+                msgs.append(msg)
+        return msgs
     return c02.check_case(case)
 
 
